@@ -35,7 +35,10 @@ def plan(prop, tier):
     return jobs
 
 
-def exe():
+def exe(uchar=False):
+    # the tree sources are #included into the harness, so -funsigned-char compiles *them* as on platforms where plain char is unsigned
+    if uchar:
+        return build.build_exe("tree_bfs_uchar", "asan", ["harness/tree_bfs.c"], exclude=TREE_SRCS, cflags=["-funsigned-char"])
     return build.build_exe("tree_bfs", "asan", ["harness/tree_bfs.c"], exclude=TREE_SRCS)
 
 
@@ -48,6 +51,12 @@ def run(prop, tier):
     def one(j):
         common.run_harness(x, list(j), acc, "tree_bfs type=%d K=%d mode=%d" % j, timeout=3000, crash_prop=prop)
     common.parallel(one, jobs)
+    if prop == "C13":      # same closure with plain char unsigned (ARM / PowerPC ABI): narrow balance / colour fields must not depend on char signedness
+        xu = exe(True)
+        common.parallel(lambda j: common.run_harness(xu, list(j), acc, "tree_bfs[unsigned-char] type=%d K=%d mode=%d" % j, timeout=3000, crash_prop=prop), [(1, 7, 0), (2, 7, 0)])
+        for v in acc.viols:
+            if "unsigned-char" in v.get("job", ""):
+                v["sig"] += "@unsigned-char"
     s = acc.stats
     cov = dict(states=s.get("states", 0), transitions=s.get("transitions", 0),
                traces_validated_against_impl=s.get("canon_on_replay_checks", 0) + s.get("mutating_transitions", 0),
